@@ -8,7 +8,7 @@ client a call is made on → what the call consults (`Req.CloneChain.effective`)
 c18clone <rebuild> <ops> <client>
   rebuild   1 = the code as it is (Clone rebuilds the wrapper chain), 0 = without the rebuild
   ops       ';'-separated ("-" = none):  N | C<c> | W<c>:<id>.<id>… | B<c>:<id> | A<c>:<id> | E<c>:<id> |
-            K<c>:<id> | H<c>:<id> | X<c>:<id> | R<c>:<0|1>
+            K<c>:<id> | H<c>:<id> | X<c>:<id> | R<c>:<0|1> | D<c>   (D = SetCommonDigestAuth)
             (new client, clone, wrap batch, OnBeforeRequest, OnAfterResponse, SetCommonErrorResult,
              SetResultStateCheckFunc, OnError, SetResponseBodyTransformer, Disable(1)/Enable(0)AutoReadResponse)
 → ws=<ids outermost first> core=<c> before=<ids> after=<ids> cerr=<id> chk=<id> hook=<id> xf=<id> aro=<bit> tr=<c>   | none
@@ -25,7 +25,8 @@ def parseCloneOp (s : String) : Option Op :=
   else
     let k := s.take 1
     match (s.drop 1).toString.splitOn ":" with
-    | [c] => if k.toString == "C" then c.toNat?.map .clone else none
+    | [c] => if k.toString == "C" then c.toNat?.map .clone
+             else if k.toString == "D" then c.toNat?.map .digestAuth else none
     | [c, a] =>
       match c.toNat? with
       | none => none
